@@ -238,8 +238,9 @@ class Agent:
         rng, p = self.rng, self.p
         quiet = t < p["start_quiet"]
         po = self.prev_out
-        bus = po[O["data_o"]] if po else 0
-        stp = po[O["stp"]] if po else 0
+        # what the PHY saw at the last clock edge (nothing while it was driving the bus itself)
+        bus = po[O["data_o"]] if (po and po[O["oe"]]) else 0
+        stp = po[O["stp"]] if (po and po[O["oe"]]) else 0
         dir_, nxt, data_i = 0, 0, 0
         # ---------------- PHY
         if self.phy == "episode":
@@ -252,7 +253,9 @@ class Agent:
             self.after_dir += 1
             start_ep = False
             if not quiet:
-                if self.phy == "idle" and bus == 0 and rng.below(1000) < p["rx_rate"]:
+                if self.after_dir < 2:
+                    pass                 # at least one DIR-low cycle between two episodes
+                elif self.phy == "idle" and bus == 0 and rng.below(1000) < p["rx_rate"]:
                     start_ep = True
                 elif (self.phy != "idle" or bus != 0) and rng.below(1000) < p["abort_rate"]:
                     start_ep = True
@@ -265,7 +268,7 @@ class Agent:
                 self.presented = False
             elif self.phy == "idle":
                 # a command byte seen on the bus at the last clock edge may be accepted now
-                if bus != 0 and not stp and self.after_dir >= 1:
+                if bus != 0 and not stp and self.after_dir >= 2:
                     if not self.presented:
                         self.presented = True
                         self.wait = rng.range(0, p["nxt_delay"])
@@ -388,6 +391,8 @@ def phy_rx_view(rows_in, regop=None):
         ro = bool(regop[t]) if regop is not None else False
         data = None
         if not d:
+            if prev_dir and n:
+                legal = 0            # NXT high in the turnaround cycle after DIR fell
             act, just = 0, 0
         elif not prev_dir:
             act, just = (1 if n else 0), 0
